@@ -665,6 +665,8 @@ func (p *PlanC29) execTransforms(out *evid.Outcome, r *sstable.Reader, meta *sst
 		}
 		out.Counters["ops"] += run.nOps
 		out.Counters["tsun_seeks"] += run.tsunUsed
+		out.Counters["mono_fwd_setbounds_seeks"] += run.monoFwdSeeks
+		out.Counters["mono_fwd_setbounds_seeks_from_overshot_position"] += run.overshootHit
 		for k, c := range run.opCount {
 			out.Counters["op_"+opNames[k]] += c
 		}
@@ -943,6 +945,7 @@ func TestC29(t *testing.T) {
 			"bounds cut a data block and a transform is active) or (block-wise CopySpan of a non-empty span that dropped at least one entry); " +
 			"distinct = hash of the plan JSON",
 		Assumptions: []string{
+			"NextPrefix is not issued while the iterator's own upper bound is a suffixed key (pebble.Iterator bars it); a suffixed *virtual* upper bound does not bar it",
 			"synthetic suffix only on tables whose keys all carry a suffix (the treatment of unsuffixed keys is documented inconsistently)",
 			"ReadEnv.IsSharedIngested (ForeignSSTTransformer) is not exercised; excise.go is covered only through the reader-level virtual bounds it produces",
 			"CopySpan is given the writer options of the source table (same checksum type and key schema) and a reader with a block cache",
